@@ -613,8 +613,14 @@ func parseDurationSTL(i string, framerate int) (d time.Duration, err error) {
 	}
 
 	// Set duration
-	d = time.Duration(hours)*time.Hour + time.Duration(minutes)*time.Minute + time.Duration(seconds)*time.Second + time.Duration(1e9*frames/framerate)*time.Nanosecond
+	d = time.Duration(hours)*time.Hour + time.Duration(minutes)*time.Minute + time.Duration(seconds)*time.Second + time.Duration(stlFramesToNanoseconds(frames, framerate))*time.Nanosecond
 	return
+}
+
+// stlFramesToNanoseconds returns the position of a frame in its second, rounded up to the next nanosecond so that
+// formatting it back gives the same frame number whatever the framerate (1e9 is not a multiple of 30)
+func stlFramesToNanoseconds(frames, framerate int) int {
+	return (1e9*frames + framerate - 1) / framerate
 }
 
 // formatDurationSTL formats a STL duration
@@ -816,7 +822,7 @@ func formatDurationSTLBytes(d time.Duration, framerate int) (o []byte) {
 
 // parseDurationSTLBytes parses a STL duration in bytes
 func parseDurationSTLBytes(b []byte, framerate int) time.Duration {
-	return time.Duration(uint8(b[0]))*time.Hour + time.Duration(uint8(b[1]))*time.Minute + time.Duration(uint8(b[2]))*time.Second + time.Duration(1e9*int(uint8(b[3]))/framerate)*time.Nanosecond
+	return time.Duration(uint8(b[0]))*time.Hour + time.Duration(uint8(b[1]))*time.Minute + time.Duration(uint8(b[2]))*time.Second + time.Duration(stlFramesToNanoseconds(int(uint8(b[3])), framerate))*time.Nanosecond
 }
 
 type stlCharacterHandler struct {
